@@ -45,6 +45,24 @@ def _release_panics_below(facts, b, depth, seen):
     return n
 
 
+def _overflow_checks(b):
+    view = mir.BodyView(b)
+    return {view.blocks[i]["term"]["msg"] for i in view.live_blocks()
+            if view.blocks[i]["term"]["k"] == "assert" and str(view.blocks[i]["term"].get("msg", "")).startswith("overflow")}
+
+
+def _other_checks(b):
+    """compiler-inserted checks that survive in release builds (bounds, division by zero, ...), own calls that may panic"""
+    view = mir.BodyView(b)
+    for i in view.live_blocks():
+        t = view.blocks[i]["term"]
+        if t["k"] == "assert" and not str(t.get("msg", "")).startswith("overflow"):
+            return True
+        if t["k"] == "call":
+            return True       # the documented panic may come from a callee we do not see into
+    return False
+
+
 def run(facts, report, config, select, prefix, counter="documented_panics"):
     for b in facts.fn_bodies():
         if b["kind"] == "Closure" or not select(b):
@@ -56,6 +74,15 @@ def run(facts, report, config, select, prefix, counter="documented_panics"):
         key = "%s|%s" % (prefix, norm_id(b["id"]))
         dbg, rel = _own_panics(b)
         callee_rel = _release_panics_below(facts, b, 0, {b["id"]})
+        ovf = _overflow_checks(b)
+        if not dbg and not rel and not callee_rel and ovf and not _other_checks(b):
+            report.add(Instance(key, prefix, "violation",
+                                "`%s` is documented to panic ('%s') but contains no panic site of its own: the only thing that can "
+                                "stop it is the compiler's arithmetic-overflow check (%s), which exists in builds with overflow "
+                                "checks only — the optimized build carries on with a wrapped / masked result" % (
+                                    b.get("name"), m.group(0)[:90], ", ".join(sorted(ovf))), b["span"],
+                                {"body": b["id"], "doc": m.group(0)}), config)
+            continue
         if dbg and not rel and not callee_rel:
             report.add(Instance(key, prefix, "violation",
                                 "`%s` is documented to panic ('%s') but its only explicit panic site(s) are debug assertions "
